@@ -610,7 +610,98 @@ func ruleC19Panics(c *Checker) {
 			pos := p.Pos(pn.Pos())
 			kind := classifyPanic(p, fn, pn)
 			c.check(kind != "", R, name, "panic", pos, kind, "an explicit panic on an edge that is not a documented misuse / sealed-type default / init-time check: input may reach it")
+			// a constructor documented to panic on an argument its sanitiser refuses: module
+			// callers must have put that very argument through the sanitiser (or a predicate
+			// wrapping it) first — a weaker test (fs.ValidPath alone) lets input reach the panic
+			if strings.HasPrefix(kind, "documented: panics when given an invalid argument") {
+				checkPanicCallers(c, R, fn, pn)
+			}
 		}
+	}
+}
+
+// checkPanicCallers: fn panics on the error edge of a sanitiser applied to one
+// of its parameters; every module call site must pass a value the sanitiser
+// has accepted.
+func checkPanicCallers(c *Checker, R string, fn *ssa.Function, pn *ssa.Panic) {
+	p := c.P
+	var san *ssa.Function
+	pidx := -1
+	for _, ci := range callsIn(fn) {
+		cl, ok := ci.(*ssa.Call)
+		if !ok {
+			continue
+		}
+		_, errE := okEdgesOfCall(cl)
+		if len(errE) == 0 || !guarded(pn.Block(), errE) {
+			continue
+		}
+		g := cl.Common().StaticCallee()
+		if g == nil || !p.InModule(g) {
+			continue
+		}
+		for _, a := range cl.Call.Args {
+			if prm, ok := canon(a).(*ssa.Parameter); ok && prm.Parent() == fn {
+				for i, q := range fn.Params {
+					if q == prm {
+						san, pidx = g, i
+					}
+				}
+			}
+		}
+	}
+	if san == nil {
+		return
+	}
+	// predicates wrapping the sanitiser: module functions (string) bool that return err == nil of it
+	isPred := func(h *ssa.Function) bool {
+		if h == nil || !p.InModule(h) || h.Signature.Results().Len() != 1 || !isBoolType(h.Signature.Results().At(0).Type()) {
+			return false
+		}
+		for _, ci := range callsIn(h) {
+			if ci.Common().StaticCallee() == san {
+				return true
+			}
+		}
+		return false
+	}
+	for _, site := range p.callersOf(fn) {
+		caller := site.Parent()
+		if !p.InModule(caller) || pidx >= len(site.Common().Args) {
+			continue
+		}
+		arg := site.Common().Args[pidx]
+		ok := false
+		why := ""
+		if _, isC := canon(arg).(*ssa.Const); isC {
+			ok = true
+		}
+		if !ok {
+			if okv, w := p.subPathValueOK(arg, site, 3, map[ssa.Value]bool{}); okv {
+				ok = true
+			} else {
+				why = w
+			}
+		}
+		if !ok {
+			// guarded by the true edge of a wrapping predicate on the same value
+			tE, _ := condEdges(caller, func(v ssa.Value) bool {
+				cl, isCall := v.(*ssa.Call)
+				if !isCall || !isPred(cl.Common().StaticCallee()) || len(cl.Call.Args) == 0 {
+					return false
+				}
+				if sameLoc(cl.Call.Args[0], arg) || canon(cl.Call.Args[0]) == canon(arg) || p.canonX(cl.Call.Args[0]) == p.canonX(arg) {
+					return true
+				}
+				ka, oka := fieldPathKey(cl.Call.Args[0], site, 0)
+				kb, okb := fieldPathKey(arg, site, 0)
+				return oka && okb && ka == kb
+			})
+			if guarded(site.Block(), tE) {
+				ok = true
+			}
+		}
+		c.check(ok, R, p.FuncName(caller), "argument of panicking "+fn.Name(), p.Pos(site.Pos()), "the argument was accepted by "+p.FuncName(san)+" (or a predicate wrapping it) before the call", "calls "+p.FuncName(fn)+", which panics on an argument "+p.FuncName(san)+" refuses, with a value that was not put through it ("+why+"): input can reach the panic (e.g. a file name containing '?')")
 	}
 }
 
@@ -815,4 +906,84 @@ func pushedIsCompared(ci ssa.CallInstruction, ap *ssa.Call) bool {
 		}
 	}
 	return false
+}
+
+
+// fieldPathKey names a value by the chain of field selections that leads to
+// it from a root (parameter, call result, fresh allocation), looking through
+// struct copies (x := *p) — so p.f.g read twice, or read once directly and
+// once from a copy of *p.f, get the same key. A store into the path that may
+// happen before the site makes the value unnameable.
+func fieldPathKey(v ssa.Value, site ssa.Instruction, depth int) (string, bool) {
+	if depth > 8 {
+		return "", false
+	}
+	storedBefore := func(base ssa.Value, field int) bool {
+		fn := site.Parent()
+		bad := false
+		eachInstr(fn, func(in ssa.Instruction) {
+			st, ok := in.(*ssa.Store)
+			if !ok {
+				return
+			}
+			fa, ok := st.Addr.(*ssa.FieldAddr)
+			if !ok || fa.Field != field || canon(fa.X) != canon(base) {
+				return
+			}
+			if !dominates(site, st) {
+				bad = true // may execute before the site
+			}
+		})
+		return bad
+	}
+	switch x := v.(type) {
+	case *ssa.UnOp:
+		if x.Op != token.MUL {
+			return "", false
+		}
+		switch a := x.X.(type) {
+		case *ssa.FieldAddr:
+			base := a.X
+			// a field of a local copy: x := *q  →  same as q's field
+			if al, ok := base.(*ssa.Alloc); ok {
+				ws := cellWrites(al)
+				if len(ws) == 1 && !storedBefore(base, a.Field) {
+					if ld, ok := ws[0].Val.(*ssa.UnOp); ok && ld.Op == token.MUL {
+						k, ok := fieldPathKey(ld.X, site, depth+1)
+						if ok {
+							return k + "." + fieldOf(a).Name(), true
+						}
+					}
+				}
+				if storedBefore(base, a.Field) {
+					return "", false
+				}
+				return fmt.Sprintf("%p.%s", al, fieldOf(a).Name()), true
+			}
+			if storedBefore(base, a.Field) {
+				return "", false
+			}
+			k, ok := fieldPathKey(base, site, depth+1)
+			if !ok {
+				return "", false
+			}
+			return k + "." + fieldOf(a).Name(), true
+		case *ssa.Alloc:
+			ws := cellWrites(a)
+			if len(ws) == 1 {
+				return fieldPathKey(ws[0].Val, site, depth+1)
+			}
+			return "", false
+		}
+		return "", false
+	case *ssa.Field:
+		k, ok := fieldPathKey(x.X, site, depth+1)
+		if !ok {
+			return "", false
+		}
+		return k + "." + fieldOf(x).Name(), true
+	case *ssa.Parameter, *ssa.Call, *ssa.Extract, *ssa.Alloc, *ssa.FreeVar:
+		return fmt.Sprintf("%p", x), true
+	}
+	return "", false
 }
